@@ -2,7 +2,7 @@
 
  1. TLC enumerates InstallPath.tla for the measured scratch root: install configurations (depth, exact total
     length incl. 1023/1024/1025, 2047/2048/2049, 4094/4095 = PATH_MAX-1, NAME_MAX-long components, character
-    classes ascii/space/utf8/dot, started directly / by a relative path / through a symlink to the file / through
+    classes ascii/space/utf8/dot/punct (backslash, quotes, ...), started directly / by a relative path / through a symlink to the file / through
     a symlink to its directory) with the expected results as component lists; the theorems of the spec (exact
     lengths, symlink resolution, prefix + last two = path) are checked at start-up.  InstallPathImpl.tla (L2, the
     code's readlink loop and its two find_last_of cuts on character strings) is checked against L1 on small strings.
@@ -39,6 +39,8 @@ def hash30(b):
 def cls_of(b):
     if any(c >= 0x80 for c in b):
         return "utf8"
+    if any(c in PUNCT for c in b):
+        return "punct"
     if b" " in b:
         return "space"
     if b"." in b:
@@ -47,6 +49,8 @@ def cls_of(b):
 
 
 ASCII = b"abcdefghijklmnopqrstuvwxyzABCDEFGHIJKLMNOPQRSTUVWXYZ0123456789_-+=,@%"
+# bytes that are separators / quoting / globbing characters elsewhere but ordinary in a POSIX file name
+PUNCT = b"\\'\":;*?<>|&$!#()[]{}`~^\t"
 MULTI = ["é", "ü", "ß", "€", "日", "本", "\U0001F600", "Ж", "λ"]
 
 
@@ -59,6 +63,12 @@ def make_name(rnd, n, cls):
             b = bytearray(rnd.choice(ASCII) for _ in range(n))
             for _ in range(1 + n // 9):
                 b[rnd.randrange(n)] = 0x20
+            b = bytes(b)
+        elif cls == "punct":
+            b = bytearray(rnd.choice(ASCII) for _ in range(n))
+            for _ in range(1 + n // 9):
+                b[rnd.randrange(n)] = rnd.choice(PUNCT)
+            b[rnd.randrange(n)] = 0x5c          # always a backslash: the other platform's separator
             b = bytes(b)
         elif cls == "dot":
             b = bytearray(rnd.choice(ASCII) for _ in range(n))
@@ -460,7 +470,7 @@ def run(ctx):
              "the spec's component lists; names are drawn from VERIF_SEED. endianness(): one run, compared with the memory image of "
              "0x01020304 the helper reads itself."
              % (len(root), "1,2,6" if q else "1..6", sorted({x["cfg"]["total"] for x in runs if x["cfg"]["total"]}),
-                "{0,3}" if q else "{0,1,5}", "{ascii, mixed}" if q else "{ascii, space, utf8, dot, mixed}",
+                "{0,3}" if q else "{0,1,5}", "{ascii, punct, mixed}" if q else "{ascii, space, utf8, dot, punct, mixed}",
                 "{directly, through a file symlink}" if q else "{directly, by a relative path, through a file symlink, through a directory symlink}"),
         assumptions=["Linux: /proc/self/exe names the running image (the resolved file, not the symlink used to start it)",
                      "AddressSanitizer is the observer for 'does not read or write outside its buffer' (a report ends the trace with a Crash event)",
